@@ -71,6 +71,10 @@ WITNESSES = [
     (None, "values-of-correct-type", "{ echo(c: \"RED\") }", {}),
     (None, "values-of-correct-type", "{ echo(i: {c: {y: true, e: \"GREEN\"}}) }", {}),
     (None, "single-root-field", "subscription A { a } subscription B { a b }", {}),
+    (None, "single-root-field", "subscription { a ... on Subscription { b } }", {}),
+    (None, "single-root-field", "subscription { ... on Subscription { a } ... { t: b } }", {}),
+    (None, "single-root-field", "subscription { ...F } fragment F on Subscription { x: a ... on Subscription { y: a } }", {}),
+    (None, "single-root-field", "subscription { a ...G } fragment G on Subscription { b }", {}),
     (None, "fragment-spreads-must-not-form-cycles", "{ dog { ...A } } fragment A on Dog { name ...B } fragment B on Dog { bark dogAgain: name ...A }", {}),
 ]
 
